@@ -63,6 +63,7 @@ type Session struct {
 	UpNet    string `json:"up_net"`    // tcp, unix, tls
 	Peers    int    `json:"peers"`     // 1 or 2 peers in the upstream
 	DownTLS  bool   `json:"down_tls"`  // tls handler before proxy
+	TLS12    bool   `json:"tls12"`     // the TLS client speaks at most TLS 1.2 (its last data record and close_notify can be read together)
 	Prefetch int    `json:"prefetch"`  // bytes the matcher wants
 	CLen     int    `json:"c_len"`     // client -> upstream bytes
 	ULen     int    `json:"u_len"`     // upstream -> client bytes
@@ -79,7 +80,8 @@ func genSession(c *fw.Ctx, i int) *Session {
 	s := &Session{Index: i}
 	s.UpNet = []string{"tcp", "tcp", "unix", "tls"}[r.Intn(4)]
 	s.Peers = 1 + r.Intn(4)/3
-	s.DownTLS = r.Intn(6) == 0
+	s.DownTLS = r.Intn(5) == 0
+	s.TLS12 = s.DownTLS && r.Intn(2) == 0
 	s.Prefetch = []int{0, 1, 5, 2048, 4096}[r.Intn(5)]
 	s.CLen = sizes[r.Intn(len(sizes))]
 	s.ULen = sizes[r.Intn(len(sizes))]
@@ -313,7 +315,11 @@ func runSession(c *fw.Ctx, w *world, canary *oracle.Canary, s *Session) {
 	defer rec.Release()
 	var conn net.Conn = raw
 	if s.DownTLS {
-		tc := tls.Client(raw, &tls.Config{RootCAs: w.cert.Pool, ServerName: "verif.test", NextProtos: []string{"http/1.1"}})
+		tcfg := &tls.Config{RootCAs: w.cert.Pool, ServerName: "verif.test", NextProtos: []string{"http/1.1"}}
+		if s.TLS12 {
+			tcfg.MaxVersion = tls.VersionTLS12
+		}
+		tc := tls.Client(raw, tcfg)
 		_ = raw.SetDeadline(time.Now().Add(60 * time.Second))
 		if err := tc.Handshake(); err != nil {
 			c.Inconclusive("client tls handshake: " + err.Error())
@@ -440,7 +446,7 @@ func runSession(c *fw.Ctx, w *world, canary *oracle.Canary, s *Session) {
 	nt := (s.CLen > 0 && s.ULen > 0) || !graceful
 	c.Obs("sessions_"+s.Order, 1)
 	c.Obs("bytes_relayed", int64(s.CLen*len(ups)+len(got)))
-	c.Case(fw.Hash(s.UpNet, s.Peers, s.DownTLS, s.Prefetch, s.CLen, s.ULen, s.Order, s.Chunk, s.DelayUs > 0), nt, func() any { return s })
+	c.Case(fw.Hash(s.UpNet, s.Peers, s.DownTLS, s.TLS12, s.Prefetch, s.CLen, s.ULen, s.Order, s.Chunk, s.DelayUs > 0), nt, func() any { return s })
 }
 
 // interleavingOf reports whether got is an order-preserving interleaving of a and b. Both streams are PRF content
